@@ -22,7 +22,8 @@ EXTENDS Naturals, Sequences, FiniteSets, TLC
 
 \* bare_rec: bare style over a RECURSIVE class Node{a1: Node, a2: Integer}: the first field of the one argument is itself a Node, so a
 \* single positional Node is the FIELD a1 (arguments are passed field-wise), never the argument object itself
-Styles == {"wrapped", "out_bare", "empty", "bare", "bare_rec"}
+\* bare_inh: bare style over a class with a parent: C(Base{a1}){a2} - the fields are the FLAT fields, parent's first
+Styles == {"wrapped", "out_bare", "empty", "bare", "bare_rec", "bare_inh"}
 Rets   == {"none", "one", "two", "three", "gen", "ignored", "fault", "exc",
            "cplx", "ignored_cplx", "ignored_two"}     \* ignored_two: Ignored where TWO values are declared     \* one return value of a two-member complex type / Ignored where such a type is declared
 Nil == 0 - 1                         \* None
@@ -49,7 +50,7 @@ Cases ==
       /\ (c.ret = "ignored_two" => c.style = "wrapped")
       /\ PrefixOk(c.modes)
       /\ (c.style = "empty" => Len(c.modes) = 0)
-      /\ (c.style = "bare" => (Len(c.modes) = 2 /\ c.ret \in {"one", "fault", "none"}))   \* one complex argument, passed field-wise
+      /\ (c.style \in {"bare", "bare_inh"} => (Len(c.modes) = 2 /\ c.ret \in {"one", "fault", "none"}))   \* one complex argument, passed field-wise
       /\ (c.style = "bare_rec" => (Len(c.modes) \in {1, 2} /\ c.ret \in {"one", "none"} /\ \A i \in 1..Len(c.modes) : c.modes[i] \in {"pos", "kw", "absent"}))
       /\ (c.style = "out_bare" => c.ret \in {"one", "fault", "exc", "gen", "cplx", "ignored_cplx"})
       /\ (c.ret \in {"cplx", "ignored_cplx"} => Len(c.modes) <= 1)
